@@ -1,4 +1,4 @@
-\* what-if "ignoreCompaction": expected to FAIL (C21_SameAsLocal: the client does not undo the path compaction). Not part of any check; see docs/remote.md.
+\* what-if "cacheSig": expected to FAIL (C21_BaselineConsistent / C21_SnapshotExact: the baseline signature is cached across calls and only dropped when lastSnapshotBytes is replaced, although the ancestor-derived baseline changes with every call). Not part of any check; see docs/remote.md.
 CONSTANTS
   MaxOps = 3
   MaxEdits = 1
@@ -10,7 +10,7 @@ CONSTANTS
   AncVals = {"nil", "A", "B"}
   Fulls = {FALSE}
   InitDisks = {"A", "E"}
-  Variant = "ignoreCompaction"
+  Variant = "cacheSig"
 SPECIFICATION Spec
 INVARIANTS
   C21_ResponseMatchesRequest
